@@ -800,3 +800,29 @@ func returnCases(fn *ssa.Function, idx int) []retCase {
 	}
 	return out
 }
+
+// calleeOnPath: the function a call invokes on this path – the static callee, or, for a call through a method value
+// chosen at run time (`f := c.Pause; if unpause { f = c.UnPause }; f()`), the method the path selected (needs
+// PathQ.AllAlias). nil when unknown.
+func calleeOnPath(ci ssa.CallInstruction, st *an.PathState) *ssa.Function {
+	if f := an.StaticCallee(ci); f != nil {
+		return f
+	}
+	c := ci.Common()
+	if c.IsInvoke() || st == nil {
+		return nil
+	}
+	v := st.Selected(c.Value)
+	if mc, ok := v.(*ssa.MakeClosure); ok {
+		if f, ok := mc.Fn.(*ssa.Function); ok {
+			if m := an.BoundMethod(f); m != nil {
+				return m
+			}
+			return f
+		}
+	}
+	if f, ok := v.(*ssa.Function); ok {
+		return f
+	}
+	return nil
+}
